@@ -78,7 +78,7 @@ impl State {
             *self.failure_checks.entry(k).or_insert(0) += v;
         }
         for f in o.failures {
-            let same = self.failures.iter().filter(|g| g.check == f.check).count();
+            let same = self.failures.iter().filter(|g| g.check == f.check && g.finding_key == f.finding_key).count();
             if same < self.max_fail {
                 self.failures.push(f);
             }
@@ -116,8 +116,8 @@ impl State {
     pub fn fail_key(&mut self, check: &str, detail: String, case: &J, observed: J, finding_key: J) {
         self.failure_count += 1;
         *self.failure_checks.entry(check.to_string()).or_insert(0) += 1;
-        // keep the first failures of every check kind, so that one noisy kind cannot hide another
-        let same = self.failures.iter().filter(|f| f.check == check).count();
+        // keep the first failures of every (check, finding key) group, so that one noisy group cannot hide another
+        let same = self.failures.iter().filter(|f| f.check == check && f.finding_key == finding_key).count();
         if same < self.max_fail {
             self.failures.push(Failure { check: check.to_string(), detail, case: case.clone(), observed, finding_key });
         }
@@ -260,6 +260,13 @@ impl State {
                     }
                 }
             },
+        }
+        // C12 (code against code, for every class of input): a precompilation error is returned unchanged by every
+        // string-level entry point; otherwise string level and tree level agree
+        match guard(|| entry_consistency(&src, &built)) {
+            Ok(Ok(())) => {},
+            Ok(Err(d)) => self.fail("entry_consistency", format!("{src:?}: {d}"), case, json!(null)),
+            Err(p) => self.fail("panic", format!("{src:?}: entry points panicked at {p}"), case, json!({"panic": p})),
         }
         // C01: every entry point and every formatter returns normally, for every class of input
         if let Err(p) = exercise_everything(&src, built.as_ref().ok()) {
@@ -642,6 +649,40 @@ pub fn enc_obs(obs: &Result<V, E>) -> J {
         Ok(v) => json!({"ok": true, "v": enc_value(v), "text": format!("{v:?}")}),
         Err(e) => json!({"ok": false, "e": enc_error(e), "text": format!("{e:?}")}),
     }
+}
+
+fn same_result(a: &Result<V, E>, b: &Result<V, E>) -> bool {
+    match (a, b) {
+        (Ok(x), Ok(y)) => same_value(x, y),
+        (Err(x), Err(y)) => x == y || format!("{x:?}") == format!("{y:?}"),
+        _ => false,
+    }
+}
+
+/// C12: `build_operator_tree(s)` fails iff every string-level entry point returns that same error; if it
+/// succeeds, evaluating the tree gives the same outcome as evaluating the string, for every entry point.
+pub fn entry_consistency(src: &str, built: &Result<Tree, E>) -> Result<(), String> {
+    for kind in KINDS {
+        for mode in MODES {
+            let mut c1 = populated();
+            let s = call_string(kind, mode, src, &mut c1);
+            match built {
+                Err(e) => {
+                    if s.as_ref().err() != Some(e) {
+                        return Err(format!("build_operator_tree fails with {e:?} but eval_{}_{} returns {s:?}", kind.name(), mode.name()));
+                    }
+                },
+                Ok(t) => {
+                    let mut c2 = populated();
+                    let r = call_tree(kind, mode, t, &mut c2);
+                    if !same_result(&s, &r) {
+                        return Err(format!("eval_{}_{}: string level {s:?}, tree level {r:?}", kind.name(), mode.name()));
+                    }
+                },
+            }
+        }
+    }
+    Ok(())
 }
 
 /// C01: calls every public evaluation entry point (string and tree level, typed and untyped,
